@@ -33,8 +33,24 @@ GAPS = ["same_turn", "turn1", "turn3", "quiesce", "delay", "long_delay"]
 
 
 def streams(gen):
-    cat = F.catalogue(gen)
+    cat = dict(F.catalogue(gen))
     names = sorted(cat)
+    # one frame of well over a kilobyte (200 zone / group records)
+    rr = random.Random(f"long{gen}")
+    if gen == 4:
+        body = b"".join(R.b4_group_status_record(
+            {"group": rr.randrange(16), "power": "on", "control_method": "temperature",
+             "damper": rr.randrange(101), "battery_low": False, "turbo_support": True,
+             "set_point_raw": rr.randrange(40), "sensor": True, "temp_raw11": rr.randrange(1500),
+             "spill": False}) for _ in range(200))
+        cat["long_status"] = R.frame(4, R.ADDR_CLIENT, 0x80, 77, 0x2B, body)
+    else:
+        recs = [R.b5_zone_status_record(
+            {"zone": rr.randrange(16), "power": "on", "control_method": "temperature",
+             "damper": rr.randrange(101), "sp_raw": rr.randrange(200), "sensor": True,
+             "temp_raw11": rr.randrange(1500), "spill": False, "battery_low": False}, 8)
+            for _ in range(200)]
+        cat["long_status"] = R.frame(5, R.ADDR_CLIENT, 0x80, 77, 0xC0, R.c0(0x21, 8, recs))
     out = {}
     if gen == 4:
         out["version"] = ["version"]
@@ -51,6 +67,7 @@ def streams(gen):
                            "ac_status_8"]
     out["all"] = names
     out["repeat"] = ["version"] * 8
+    out["long_frame"] = ["long_status", "version"]
     return {k: b"".join(cat[n] for n in v) for k, v in out.items()}, \
            {k: len(v) for k, v in out.items()}
 
